@@ -59,6 +59,11 @@ def flagTable : List (String × Nat) :=
    ("KATAKANA", KATAKANA), ("HIRAGANA", HIRAGANA), ("THAI", THAI), ("CASE_VARIABLE", CASE_VARIABLE),
    ("LOWERCASE", LOWERCASE), ("UPPERCASE", UPPERCASE), ("NUMERIC", NUMERIC)]
 
+/-- the `detectors` vector of `mess_ratio`, in order (tie T2: `Inv.mdDetectors`); `Dets.ratios` follows it -/
+def detectorOrder : List String :=
+  ["TooManySymbolOrPunctuationPlugin", "TooManyAccentuatedPlugin", "UnprintablePlugin", "SuspiciousRangePlugin",
+   "SuspiciousDuplicateAccentPlugin", "SuperWeirdWordPlugin", "CjkInvalidStopPlugin", "ArchaicUpperLowerPlugin"]
+
 /-- `character.is(FLAG)` -/
 def CharInfo.is (c : CharInfo) (bit : Nat) : Bool := c.flags.testBit bit
 
